@@ -8,6 +8,13 @@
 #include <unordered_map>
 #include <set>
 
+#ifdef PSTLAB_ORATIO_VERIF
+namespace oratio_verif
+{
+  struct access;
+}
+#endif
+
 namespace smt
 {
   class ov_value_listener;
@@ -15,6 +22,9 @@ namespace smt
   class ov_theory final : public theory
   {
     friend class ov_value_listener;
+#ifdef PSTLAB_ORATIO_VERIF
+    friend struct ::oratio_verif::access;
+#endif
 
   public:
     SMT_EXPORT ov_theory(sat_core &sat);
